@@ -80,6 +80,11 @@ func (r Wrapper) handleS2SAccessTokenRequest(ctx context.Context, clientID strin
 	if err := pexConsumer.fulfill(*submission, *pexEnvelope); err != nil {
 		return nil, oauthError(oauth.InvalidRequest, err.Error())
 	}
+	// This grant type carries a single Presentation Submission. If the scope requires more Presentation Definitions
+	// to be fulfilled (e.g. one for the organization wallet and one for the user wallet), it can't be granted here.
+	if walletOwnerType, _ := pexConsumer.next(); walletOwnerType != nil {
+		return nil, oauthError(oauth.InvalidRequest, fmt.Sprintf("scope (%s) also requires a presentation from the %s wallet, which is not supported by this grant type", scope, *walletOwnerType))
+	}
 
 	for _, presentation := range pexEnvelope.Presentations {
 		if err := r.validateS2SPresentationNonce(presentation); err != nil {
